@@ -125,11 +125,56 @@ fn run_big_chunks(rep: &mut Report, rng: &mut Rng, thorough: bool, sweep: bool) 
     }
 }
 
+/// data whose period is the dictionary size +- a few bytes: the nearest earlier occurrence of every byte pair /
+/// triple lies exactly at the edge of what the dictionary (and the match finders' cyclic buffers) may reach
+fn run_dict_edge(rep: &mut Report, rng: &mut Rng, thorough: bool, sweep: bool) {
+    let dicts: &[u32] = if thorough || sweep { &[4096, 4097, 6000, 65536] } else { &[4096, 65536] };
+    for &dict in dicts {
+        for delta in [-2i64, -1, 0, 1, 2] {
+            for (normal, bt4) in [(false, false), (true, true), (true, false), (false, true)] {
+                if !(thorough || sweep) && rng.chance(1, 2) {
+                    continue;
+                }
+                let period = (dict as i64 + delta) as usize;
+                let base = rng.bytes(period);
+                let total = period * 2 + rng.range(100, 1500) as usize;
+                let data: Vec<u8> = (0..total).map(|k| base[k % period]).collect();
+                let o = LzOpts { dict, lc: 3, lp: 0, pb: 2, normal, nice: *rng.pick(&[32u32, 273]), bt4, depth: 0, preset: None };
+                let lzma2 = rng.chance(1, 2);
+                let detail = || json!({"stratum": "dict-edge", "period": period, "data_len": data.len(), "opts": o.json(), "format": if lzma2 { "lzma2" } else { "lzma" }});
+                rep.count("stratum.dict-edge");
+                let ok = if lzma2 {
+                    match lzma2_compress(&data, &o, None, &[data.len()], 0) {
+                        Outcome::Ok(c) => match lzma2_decompress(&c, o.dict, None, &[65536], data.len() + 16) {
+                            Outcome::Ok((out, used)) => (out == data && used == c.len()).then_some(()).ok_or("different data".to_string()),
+                            other => Err(other.describe()),
+                        },
+                        other => Err(format!("writer: {}", other.describe())),
+                    }
+                } else {
+                    match lzma_compress(&data, &o, LzmaFmt::RawMarker, &[data.len()]) {
+                        Outcome::Ok(c) => match lzma_decompress(&c, &o, LzmaFmt::RawMarker, data.len() as u64, &[65536], data.len() + 16) {
+                            Outcome::Ok((out, _)) => (out == data).then_some(()).ok_or("different data".to_string()),
+                            other => Err(other.describe()),
+                        },
+                        other => Err(format!("writer: {}", other.describe())),
+                    }
+                };
+                if let Err(e) = ok {
+                    rep.fail(&format!("{}-roundtrip-dict-edge", if lzma2 { "lzma2" } else { "lzma" }), &format!("data with period dict{delta:+} does not round-trip: {e}"), detail());
+                }
+                rep.case(format!("dict-edge:{}:{delta}:{normal}:{bt4}", dict_class(dict)), true, || detail());
+            }
+        }
+    }
+}
+
 pub fn run(rep: &mut Report, rng: &mut Rng, thorough: bool) {
     // a search run (the check re-invokes the engine with seeds >= 1000 when a proof obligation or the
     // correspondence broke) sweeps the targeted strata completely
     let sweep = std::env::args().nth(3).and_then(|s| s.parse::<u64>().ok()).map(|s| s >= 1000).unwrap_or(false);
     run_chunk_limit(rep, rng, thorough, sweep);
+    run_dict_edge(rep, rng, thorough, sweep);
     run_big_chunks(rep, rng, thorough, sweep);
     let cases = if thorough { 3000 } else { 260 };
     let max = if thorough { 2 << 20 } else { 96 << 10 };
